@@ -71,7 +71,7 @@ func execRelSam(c *Case) (a, b result) {
 		run := func(w int) result {
 			return safeRun(30*time.Second, func() (string, error) {
 				var out bytes.Buffer
-				err := sam.ToMultiAlign(strings.NewReader(txt), &out, w, atoi(c.Get("start")), atoi(c.Get("end")), c.Get("pad") == "1", atoi(c.Get("threads")))
+				err := sam.ToMultiAlign(textReader(c.ID, txt), &out, w, atoi(c.Get("start")), atoi(c.Get("end")), c.Get("pad") == "1", atoi(c.Get("threads")))
 				return out.String(), err
 			})
 		}
